@@ -263,6 +263,7 @@ fn decorate(rng: &mut Rng, src: &str) -> String {
     let chars: Vec<char> = src.chars().collect();
     let mut i = 0;
     let mut in_binding = 0;
+    let mut expr_quote: Option<char> = None;
     while i < chars.len() {
         let c = chars[i];
         if in_quote.is_none() && i + 1 < chars.len() && c == '{' && chars[i + 1] == '{' {
@@ -291,6 +292,31 @@ fn decorate(rng: &mut Rng, src: &str) -> String {
             depth_tag = true;
         }
         out.push(c);
+        // inside a binding (outside its string literals): white space, line breaks and comments after the dot of a member
+        // access and after opening brackets / commas (the expression parser skips them; recorded locations must not
+        // include them)
+        if in_binding > 0 {
+            if let Some(q) = expr_quote {
+                if c == '\\' && i + 1 < chars.len() {
+                    out.push(chars[i + 1]);
+                    i += 1;
+                } else if c == q {
+                    expr_quote = None;
+                }
+            } else if (c == '\'' || c == '"') && Some(c) != in_quote {
+                expr_quote = Some(c);
+            } else if c == '.' && i > 0 && i + 1 < chars.len() {
+                let prev = chars[i - 1];
+                let next = chars[i + 1];
+                if (prev.is_ascii_alphabetic() || prev == ')' || prev == ']' || prev == '_') && (next.is_ascii_alphabetic() || next == '_' || next == '$') && rng.chance(1, 3) {
+                    out.push_str(*rng.pick(&[" ", "\n  ", " /* c */ ", "/*\u{1f600}\n*/", "\t"]));
+                }
+            } else if (c == '(' || c == '[' || c == ',') && rng.chance(1, 8) {
+                out.push_str(*rng.pick(&[" ", "\n", " /* c */"]));
+            }
+        } else {
+            expr_quote = None;
+        }
         i += 1;
     }
     out
@@ -350,9 +376,33 @@ pub fn level_table(out: &mut Out) {
     }
 }
 
+/// hand-written templates in the documented syntax: none of them may be diagnosed at Warn level or above
+const CLEAN_HAND: &[&str] = &[
+    // a script reference written with a separate end tag, with nothing / white space / line breaks in between
+    "<wxs module=\"tools\" src=\"./tools.wxs\"></wxs><view>{{ tools.f(a) }}</view>",
+    "<wxs module=\"tools\" src=\"./tools.wxs\">\n</wxs>",
+    "<wxs module=\"tools\" src=\"./tools.wxs\">  \t\r\n  </wxs><wxs module=\"u\" src=\"u\" />",
+    // `class:` and `style:` attributes of the same name on one element; several of each
+    "<view class:a=\"{{ x }}\" style:a=\"1\"/>",
+    "<view class=\"c\" class:active=\"{{ on }}\" class:big=\"{{ big }}\" style=\"color: red\" style:color=\"{{ c }}\" style:active=\"1px\"/>",
+    // childless elements written with end tags and white space
+    "<include src=\"x\">\n</include><import src=\"y\"> </import><template is=\"t\" data=\"{{ a }}\">\n  </template>",
+    "<slot name=\"s\">\n</slot><slot/>",
+    // comments everywhere, entities, line breaks inside tags
+    "<!-- a --><view\n  id=\"i\"\n  hidden\n>\n  <!-- b -->x &amp; y &#65; &#x42;\n</view><!-- c -->",
+    "<block wx:if=\"{{ a }}\">1</block>\n<!-- between -->\n<block wx:elif=\"{{ b }}\">2</block> <block wx:else>3</block>",
+    "<view wx:for=\"{{ l }}\" wx:for-item=\"it\" wx:for-index=\"ix\" wx:key=\"id\" data-i=\"{{ ix }}\" mark:m=\"{{ it }}\" bind:tap=\"f\" catch:tap=\"g\" capture-bind:tap=\"h\" mut-bind:tap=\"k\">{{ it.name }}</view>",
+    "<c generic:g=\"x\" model:value=\"{{ v }}\" change:p=\"{{ m.f }}\" worklet:w=\"w\" slot=\"s\"><view slot:sv slot:other=\"o\">{{ sv }}{{ o }}</view></c><wxs module=\"m\">exports.f = function(){}</wxs>",
+];
+
 pub fn run_diag(tier: &str, seed: u64, out: &mut Out) {
     let mut rng = Rng::new(seed ^ 0xd1a6);
     let n = if tier == "thorough" { 3000 } else { 400 };
+    for (k, src) in CLEAN_HAND.iter().enumerate() {
+        let (_, ps) = glass_easel_template_compiler::parse::parse("p", src);
+        let diags: Vec<J> = ps.warnings().map(diag_json).collect();
+        out.raw(&json!({"kind": "clean", "id": format!("hand{}", k), "src": src, "diags": diags}).to_string());
+    }
     for i in 0..n {
         let mut g = TmplGen::new(&mut rng, clean_cfg(i));
         let src = g.file();
@@ -429,6 +479,12 @@ fn inject(rng: &mut Rng, src: &str) -> Vec<(&'static str, String, u32, u8)> {
     v.push(("duplicated attribute", insert_at(rng, "<view hidden=\"1\" hidden=\"2\"/>"), code(K::DuplicatedAttribute), 2));
     v.push(("duplicated id", insert_at(rng, "<view id=\"a\" id=\"b\"/>"), code(K::DuplicatedAttribute), 2));
     v.push(("duplicated wx:if", insert_at(rng, "<view wx:if=\"{{a}}\" wx:if=\"{{b}}\"/>"), code(K::DuplicatedAttribute), 2));
+    v.push(("duplicated style: attribute", insert_at(rng, "<view style:color=\"red\" style:color=\"blue\"/>"), code(K::DuplicatedAttribute), 2));
+    v.push(("duplicated class: attribute", insert_at(rng, "<view class:a=\"{{x}}\" class:b=\"1\" class:a=\"{{y}}\"/>"), code(K::DuplicatedAttribute), 2));
+    v.push(("duplicated style: attribute next to a class: attribute of that name", insert_at(rng, "<view class:a=\"{{x}}\" style:b=\"1\" style:b=\"2\"/>"), code(K::DuplicatedAttribute), 2));
+    v.push(("unterminated comment at end of input", format!("{}<view/><!-- note", src), code(K::IncompleteTag), 4));
+    v.push(("stray unterminated end tag at end of input", format!("{}<view>x</vi", src), code(K::IncompleteTag), 4));
+    v.push(("stray unterminated end tag at end of input (top level)", format!("{}</view ", src), code(K::IncompleteTag), 4));
     // the forbidden children in several shapes: an element, text, a binding, white space first, a comment first
     let kids = |rng: &mut Rng| -> &'static str {
         *rng.pick(&["<view/>", "text", "{{ a }}", "\n  <view/>\n", "<!-- note --><view/>", "<!-- note -->text", "<!-- a --><!-- b --><text>t</text>", "<view/><!-- after -->"])
